@@ -114,7 +114,9 @@ def check_props(prop):
     Print Assumptions reports.  Returns dict(ok, obligations, discharged, assumptions, log)."""
     vfile = os.path.join(COQ, "Props", prop + ".v")
     names = theorem_names(vfile)
-    rc, out = coq_make([f"Props/{prop}.vo"])
+    # the property file and every model / check-support module the generated case files import
+    models = [os.path.relpath(f, COQ) + "o" for f in sorted(glob.glob(os.path.join(COQ, "Model", "*.v")))]
+    rc, out = coq_make([f"Props/{prop}.vo"] + models)
     res = {"ok": rc == 0, "obligations": len(names), "discharged": 0, "theorems": names,
            "assumptions": [], "log": out[-4000:], "failed_at": None}
     if rc != 0:
